@@ -11,6 +11,7 @@ try:
         p = subprocess.run(["./vcheck", "check", pid, "--tier", "quick"], cwd="/verif", capture_output=True, text=True)
         lines = [l for l in p.stdout.splitlines() if l.startswith(("VIOLATION", "KNOWN-FINDING")) or " OK " in l or " FAILED " in l]
         print("== %s rc=%d (%.0fs)" % (pid, p.returncode, time.time() - t))
+        lines = [l for l in lines if not l.startswith("KNOWN-FINDING")] + [l for l in lines if l.startswith("KNOWN-FINDING")]
         for l in lines[:6]:
             print("   " + l[:260])
 finally:
